@@ -6,7 +6,10 @@ use std::hash::{BuildHasher, Hasher};
 use std::sync::Arc;
 
 use fnv::FnvHasher;
+#[cfg(not(prometheus_verif))]
 use parking_lot::RwLock;
+#[cfg(prometheus_verif)]
+use crate::verif_sync::RwLock;
 
 use crate::desc::{Desc, Describer};
 use crate::errors::{Error, Result};
